@@ -195,6 +195,16 @@ func (d *Decoder) volumePath(volumeNumber uint64) string {
 
 // LoadParityData searches for parity volumes and loads them into
 // memory.
+// unusableVolumeError wraps the error for a parity volume file that is
+// present but damaged.
+type unusableVolumeError struct {
+	err error
+}
+
+func (e unusableVolumeError) Error() string {
+	return e.err.Error()
+}
+
 func (d *Decoder) LoadParityData() error {
 	// TODO: Support searching for volume data without relying on
 	// filenames.
@@ -228,8 +238,11 @@ func (d *Decoder) LoadParityData() error {
 			parityVolume, err := readVolume(volumeBytes)
 			// TODO: Check set hash.
 			if err != nil {
-				// TODO: Relax this check.
-				return volume{}, 0, err
+				// A volume that cannot be parsed (bad ID string or
+				// version, truncated, control hash mismatch) is a
+				// damaged volume: count it as unusable and keep
+				// going with the others.
+				return volume{}, 0, unusableVolumeError{err}
 			}
 
 			byteCount := len(parityVolume.data)
@@ -258,6 +271,8 @@ func (d *Decoder) LoadParityData() error {
 		}()
 		d.delegate.OnVolumeFileLoad(volumeNumber, volumePath, parityVolume.header.SetHash, parityVolume.setHash, byteCount, err)
 		if os.IsNotExist(err) {
+			continue
+		} else if _, ok := err.(unusableVolumeError); ok {
 			continue
 		} else if err != nil {
 			return err
